@@ -11,6 +11,7 @@ import VerdeModel.Model.Score
 import VerdeModel.Model.Gridder
 import VerdeModel.Model.LinAlg
 import VerdeModel.Model.Kernels
+import VerdeModel.Model.Neighbors
 namespace Verde
 open Val
 
@@ -334,8 +335,36 @@ def opsKernels (op : String) (a : List Val) : Option Val :=
       pure (.list [.list (r.map fun p => fv p.1), .list (r.map fun p => fv p.2)])
   | _ => none
 
+def redOf (s : String) : Option Red :=
+  match s with
+  | "mean" => some .mean | "median" => some .median | "sum" => some .sum | "min" => some .min | "max" => some .max
+  | _ => none
+
+def opsNeighbors (op : String) (a : List Val) : Option Val :=
+  match op with
+  | "knn" => do
+      let es ← argAt (List Rat) a 0; let ns ← argAt (List Rat) a 1; let data ← argAt (List Rat) a 2
+      let k ← argAt Nat a 3; let red ← redOf (← argAt String a 4)
+      let qs ← argAt (List (Rat × Rat)) a 5
+      -- predictions plus, per query, the gap between the k-th and (k+1)-th squared distances (tie margin)
+      let gaps := qs.map fun q =>
+        let s := sortedByDist es ns q
+        match s[k - 1]?, s[k]? with
+        | some x, some y => some (y.1 - x.1)
+        | _, _ => none
+      pure (toVal (knnPredict es ns data k red qs, gaps))
+  | "median_distance" => do
+      pure (toVal (nearestOthersSq (← argAt (List Rat) a 0) (← argAt (List Rat) a 1) (← argAt Nat a 2)))
+  | "distance_mask" => do
+      let es ← argAt (List Rat) a 0; let ns ← argAt (List Rat) a 1
+      let qs ← argAt (List (Rat × Rat)) a 3
+      let md ← argAt Rat a 2
+      let margins := qs.map fun q => (kNearest es ns q 1).head?.map fun p => p.1 - md * md
+      pure (toVal (distanceMask es ns md qs, margins))
+  | _ => none
+
 def dispatchers : List (String → List Val → Option Val) :=
-  [opsCoords, opsBlocks, opsWindows, opsGrid, opsCV, opsScore, opsGridder, opsLinAlg, opsKernels]
+  [opsCoords, opsBlocks, opsWindows, opsGrid, opsCV, opsScore, opsGridder, opsLinAlg, opsKernels, opsNeighbors]
 
 def runLine (line : String) : String :=
   match Val.parseLine line with
